@@ -66,8 +66,25 @@ async fn scenario(sim: Arc<Sim>, unit: Value) -> Obs {
     let (a_greater, off_ms, lat_ab, lat_ba, _bound, fate_budget) = params(&unit);
     let (small, big) = ordered_keys();
     let (ka, kb) = if a_greater { (big, small) } else { (small, big) };
-    let a = sim.start(&NodeSpec::new(ka)).unwrap();
-    let b = sim.start(&NodeSpec::new(kb)).unwrap();
+    let background = unit["dial"].as_str() == Some("background");
+    let (a, b) = if background {
+        // both sides dial from their connectivity check (High-affinity known peers); the phase
+        // between the two checks is the start offset
+        anemo::verif::set_jitter_override(Some(std::time::Duration::ZERO));
+        let mut c = anemo::Config::default();
+        c.connectivity_check_interval_ms = Some(200);
+        let (first, second) = if off_ms < 0 { (kb, ka) } else { (ka, kb) };
+        let n1 = sim.start(&NodeSpec::new(first).config(c.clone())).unwrap();
+        tokio::time::sleep(ms(off_ms.unsigned_abs())).await;
+        let n2 = sim.start(&NodeSpec::new(second).config(c)).unwrap();
+        if off_ms < 0 {
+            (n2, n1)
+        } else {
+            (n1, n2)
+        }
+    } else {
+        (sim.start(&NodeSpec::new(ka)).unwrap(), sim.start(&NodeSpec::new(kb)).unwrap())
+    };
     let (na, nb) = (sim.node_of(&a), sim.node_of(&b));
     sim.fabric.set_latency_us(na, nb, lat_ab * 1000);
     sim.fabric.set_latency_us(nb, na, lat_ba * 1000);
@@ -77,13 +94,36 @@ async fn scenario(sim: Arc<Sim>, unit: Value) -> Obs {
     sim.fabric.set_fate_budget(fate_budget);
     let (aa, ba) = (a.local_addr(), b.local_addr());
     let (a2, b2) = (a.clone(), b.clone());
+    if background {
+        a.known_peers().insert(known_peer(b.peer_id(), anemo::types::PeerAffinity::High, vec![ba]));
+        b.known_peers().insert(known_peer(a.peer_id(), anemo::types::PeerAffinity::High, vec![aa]));
+    }
     let ha = tokio::spawn(async move {
+        if background {
+            // stands for "the background dial": resolved once this side lists the other
+            for _ in 0..300 {
+                if !a2.peers().is_empty() {
+                    return Ok(a2.peers()[0]);
+                }
+                tokio::time::sleep(ms(10)).await;
+            }
+            return Err(anyhow::anyhow!("never connected"));
+        }
         if off_ms < 0 {
             tokio::time::sleep(ms((-off_ms) as u64)).await;
         }
         a2.connect(ba).await
     });
     let hb = tokio::spawn(async move {
+        if background {
+            for _ in 0..300 {
+                if !b2.peers().is_empty() {
+                    return Ok(b2.peers()[0]);
+                }
+                tokio::time::sleep(ms(10)).await;
+            }
+            return Err(anyhow::anyhow!("never connected"));
+        }
         if off_ms > 0 {
             tokio::time::sleep(ms(off_ms as u64)).await;
         }
@@ -143,6 +183,19 @@ async fn scenario(sim: Arc<Sim>, unit: Value) -> Obs {
         late.push(format!("b:{}", event_str(&sim, &e)));
     }
     let (trace_bad, trace_calls) = check_registry_traces(&sim);
+    // background variant: "this side's dial succeeded" = its registry was handed an outbound
+    // connection (hook H4 tap); there is no connect() result to read
+    let (mut ra, mut rb) = (ra, rb);
+    if background {
+        let taps = sim.taps.lock().unwrap();
+        let dialed = |own: anemo::PeerId| taps.iter().any(|t| matches!(&t.1, anemo::verif::TapEvent::AddCall { own: o, origin, .. } if *o == own && origin.to_string() == "outbound"));
+        if ra.is_ok() && !dialed(a.peer_id()) {
+            ra = Err(anyhow::anyhow!("connected, but not through its own dial"));
+        }
+        if rb.is_ok() && !dialed(b.peer_id()) {
+            rb = Err(anyhow::anyhow!("connected, but not through its own dial"));
+        }
+    }
     let es = |v: &Vec<PeerEvent>| v.iter().map(|e| event_str(&sim, e)).collect::<Vec<_>>();
     log.push(format!("events a: {:?}", es(&ev_a_raw)));
     log.push(format!("events b: {:?}", es(&ev_b_raw)));
@@ -280,6 +333,14 @@ impl Check for C05 {
                         };
                         u.push(json!({"kind":"simnet","a_greater":a_greater,"offset_ms":off,"lat_ab_ms":lab,"lat_ba_ms":lba,"bound":bound,"fate_budget":60}));
                     }
+                }
+            }
+        }
+        // the same grid with both dials made by the connectivity check (High-affinity known peers)
+        for a_greater in [false, true] {
+            for off in [-12i64, -3, 0, 3, 12] {
+                for (lab, lba) in [(1u64, 1u64), (5, 5), (1, 9), (9, 1)] {
+                    u.push(json!({"kind":"simnet","dial":"background","a_greater":a_greater,"offset_ms":off,"lat_ab_ms":lab,"lat_ba_ms":lba,"bound":tier.pick(1, 2),"fate_budget":60}));
                 }
             }
         }
